@@ -119,7 +119,7 @@ def cases(kind, tier, seed):
             todo = [(L, 'finite', None) for L in lengths(chain, tier, (3, 4), (2, 3, 4, 5))] + [(L, 'infinite', reach) for L, reach in (INF_CELLS[:2] if q else INF_CELLS)]
             for L, bc, reach in todo:
                 fam = dict((f, s) for f, s in family(chain, L, seed, ci, pairs=False, bc=bc, reach=reach))
-                for name in ('all-groups', 'all-groups-complex'):
+                for name in ('all-groups-complex',) if q else ('all-groups', 'all-groups-complex'):
                     for k in range(len(fam[name]['terms'])):
                         for all_id in ((True, False) if bc == 'finite' else (True,)):
                             yield dict(spec=fam[name], k=k, all_id_single=all_id)
@@ -153,7 +153,7 @@ def cases(kind, tier, seed):
                 for fam, spec in family(chain, L, seed, ci, pairs=(L, reach) == (1, 2) or not q and L < 3, bc='infinite', reach=reach):
                     if q and (L, reach) in INF_CELLS[2:] and fam not in ('single', 'all-groups-complex', 'explicit_plus_hc'):
                         continue
-                    yield dict(spec=spec, seed=seed, family=fam, Lpsi={1: [2, 3] if fam != 'pair-of-groups' else [2], 2: [2] if q else [2, 3], 3: [3]}[L])
+                    yield dict(spec=spec, seed=seed, family=fam, Lpsi={1: [2, 3] if fam.startswith('all-groups') or not q else [2], 2: [2] if q else [2, 3], 3: [3]}[L])
     elif kind == 'infapply':
         ts = ([0., 0.1], [0.05, 0.05]) if q else ([0., 0.1], [-0.1, 0.], [0.05, 0.05])
         for ci, chain in enumerate(chains(tier)):
